@@ -75,6 +75,16 @@ func (c *Ctx) fn(name string) *ssa.Function { return c.P.Func(name) }
 
 // explore enumerates paths of fn; a path-cap overflow is a failed obligation.
 func (c *Ctx) explore(rule string, fn *ssa.Function, o core.Opts, cb func(*core.Path)) int {
+	n, err := c.exploreErr(fn, o, cb)
+	if err != nil {
+		c.R.Fail(rule, core.FuncName(fn), "path-enumeration", fn.Pos(), "path enumeration incomplete: "+err.Error())
+	}
+	return n
+}
+
+// exploreErr is explore without the report of an incomplete enumeration (for
+// callers that have a fallback).
+func (c *Ctx) exploreErr(fn *ssa.Function, o core.Opts, cb func(*core.Path)) (int, error) {
 	// small unexported functions that did not exist when the rules were written are helpers
 	// extracted by a later refactoring: inline them so the rule sees the same events and literals
 	user := o.Inline
@@ -88,10 +98,7 @@ func (c *Ctx) explore(rule string, fn *ssa.Function, o core.Opts, cb func(*core.
 	n, err := x.Paths(fn, o, cb)
 	c.R.PathsSeen += n
 	c.R.Analysed[core.FuncName(fn)] = true
-	if err != nil {
-		c.R.Fail(rule, core.FuncName(fn), "path-enumeration", fn.Pos(), "path enumeration incomplete: "+err.Error())
-	}
-	return n
+	return n, err
 }
 
 // inlineSet builds an Inline predicate from function names (all must exist).
